@@ -5,6 +5,9 @@ INTERFACE lemmas (used by Properties/C04.lean) are marked `-- INTERFACE`: keep t
 import SpsdkVerif.Proofs.Sb2Section
 import SpsdkVerif.Crypto.Break
 
+set_option linter.unusedSimpArgs false
+set_option linter.unusedVariables false
+
 namespace SpsdkVerif.Sb2
 open SpsdkVerif SpsdkVerif.Sb2.Rom
 open SpsdkVerif.Misc (Bytes beEnc beDec leEnc leDec)
@@ -13,19 +16,441 @@ open SpsdkVerif.Generated
 
 variable {c : CryptoOps}
 
+/-! ## generic helpers -/
+
+
+theorem splitW_flatten (pieces : List Bytes) (ws : List Nat) (hw : pieces.map List.length = ws) (rest : Bytes) :
+    Rom.splitW ws (pieces.flatten ++ rest) = some pieces := by
+  subst hw
+  induction pieces with
+  | nil => simp [Rom.splitW]
+  | cons p ps ih =>
+    simp only [List.map_cons, List.flatten_cons, Rom.splitW, List.append_assoc]
+    rw [if_neg (by simp), List.drop_left, ih, List.take_left]
+
+theorem splitW_append (ws : List Nat) (a b : Bytes) (r : List Bytes) (hr : Rom.splitW ws a = some r) :
+    Rom.splitW ws (a ++ b) = some r := by
+  induction ws generalizing a r with
+  | nil => simpa [Rom.splitW] using hr
+  | cons w ws ih =>
+    unfold Rom.splitW at hr ⊢
+    by_cases hl : a.length < w
+    · simp [hl] at hr
+    · rw [if_neg hl] at hr
+      rw [if_neg (by simp; omega)]
+      cases hs : Rom.splitW ws (a.drop w) with
+      | none => simp [hs] at hr
+      | some r' =>
+        rw [hs] at hr
+        have : (a ++ b).drop w = a.drop w ++ b := by
+          rw [List.drop_append_of_le_length (by omega)]
+        rw [this, ih _ _ hs]
+        have : (a ++ b).take w = a.take w := by
+          rw [List.take_append_of_le_length (by omega)]
+        rw [this]
+        exact hr
+
+theorem and_pow_ne_zero_iff (x i : Nat) : (x &&& 2 ^ i ≠ 0) ↔ x / 2 ^ i % 2 = 1 := by
+  have ht : x.testBit i = decide (x / 2 ^ i % 2 = 1) := Nat.testBit_eq_decide_div_mod_eq
+  by_cases h : x / 2 ^ i % 2 = 1
+  · simp only [h, iff_true]
+    intro h0
+    have : (x &&& 2 ^ i).testBit i = true := by
+      rw [Nat.testBit_and, Nat.testBit_two_pow, ht]; simp [h]
+    rw [h0] at this
+    simp at this
+  · simp only [h, iff_false, ne_eq, Decidable.not_not]
+    apply Nat.eq_of_testBit_eq
+    intro j
+    rw [Nat.testBit_and, Nat.testBit_two_pow]
+    by_cases hij : i = j
+    · subst hij; simp [ht, h]
+    · simp [hij]
+
+theorem flags_sha_iff (x : Nat) : (x &&& 0x8000 ≠ 0) ↔ x / 0x8000 % 2 = 1 := and_pow_ne_zero_iff x 15
+theorem flags_signed_iff (x : Nat) : (x &&& 8 ≠ 0) ↔ x / 8 % 2 = 1 := and_pow_ne_zero_iff x 3
+
+
+/-- every field of the image header fits its slot -/
+structure HdrOk (h : ImageHdr) : Prop where
+  nonce : h.nonce.length = 16
+  padding : h.padding.length = 8
+  major : h.major < 256
+  minor : h.minor < 256
+  flags : h.flags < 65536
+  imageBlocks : h.imageBlocks < 2 ^ 32
+  firstBootTagBlock : h.firstBootTagBlock < 2 ^ 32
+  firstBootSectionId : h.firstBootSectionId < 2 ^ 32
+  offsetToCert : h.offsetToCert < 2 ^ 32
+  headerBlocks : h.headerBlocks < 65536
+  keyBlobBlock : h.keyBlobBlock < 65536
+  keyBlobBlockCount : h.keyBlobBlockCount < 65536
+  maxSectionMacCount : h.maxSectionMacCount < 65536
+  timestamp : h.timestamp < 2 ^ 64
+  productVersion : Spec.bcdOk h.productVersion
+  componentVersion : Spec.bcdOk h.componentVersion
+  buildNumber : h.buildNumber < 2 ^ 32
+
+def ImageHdr.toRom (h : ImageHdr) : Rom.Hdr :=
+  { nonce := h.nonce, major := h.major, minor := h.minor, flags := h.flags, imageBlocks := h.imageBlocks,
+    firstBootTagBlock := h.firstBootTagBlock, firstBootSectionId := h.firstBootSectionId, offsetToCert := h.offsetToCert,
+    headerBlocks := h.headerBlocks, keyBlobBlock := h.keyBlobBlock, keyBlobBlockCount := h.keyBlobBlockCount,
+    maxSectionMacCount := h.maxSectionMacCount, timestamp := h.timestamp,
+    productVersion := h.productVersion, componentVersion := h.componentVersion, buildNumber := h.buildNumber }
+
+theorem encodeImageHdr_length (h : ImageHdr) (hn : h.nonce.length = 16) (hp : h.padding.length = 8) :
+    (encodeImageHdr h).length = 96 := by
+  simp [encodeImageHdr, versionWords, leEnc_length, hn, hp, Sb2Consts.imageSignature1, Sb2Consts.imageSignature2]
+
+theorem readImageHdr_encode (h : ImageHdr) (ok : HdrOk h) (rest : Bytes) :
+    Rom.readImageHdr (encodeImageHdr h ++ rest) = .ok h.toRom := by
+  have e : encodeImageHdr h ++ rest =
+      [h.nonce, h.padding.take 4, Sb2Consts.imageSignature1, [u8 h.major], [u8 h.minor], leEnc 2 h.flags,
+       leEnc 4 h.imageBlocks, leEnc 4 h.firstBootTagBlock, leEnc 4 h.firstBootSectionId, leEnc 4 h.offsetToCert,
+       leEnc 2 h.headerBlocks, leEnc 2 h.keyBlobBlock, leEnc 2 h.keyBlobBlockCount, leEnc 2 h.maxSectionMacCount,
+       Sb2Consts.imageSignature2, leEnc 8 h.timestamp,
+       leEnc 2 (swap16 h.productVersion.major), leEnc 2 0, leEnc 2 (swap16 h.productVersion.minor), leEnc 2 0,
+       leEnc 2 (swap16 h.productVersion.service), leEnc 2 0,
+       leEnc 2 (swap16 h.componentVersion.major), leEnc 2 0, leEnc 2 (swap16 h.componentVersion.minor), leEnc 2 0,
+       leEnc 2 (swap16 h.componentVersion.service), leEnc 2 0,
+       leEnc 4 h.buildNumber, (h.padding.drop 4).take 4].flatten ++ rest := by
+    simp [encodeImageHdr, versionWords, List.append_assoc]
+  unfold Rom.readImageHdr
+  rw [e, splitW_flatten _ _ (by
+    simp [Spec.imageHeaderWidths, leEnc_length, ok.nonce, ok.padding, Sb2Consts.imageSignature1, Sb2Consts.imageSignature2])]
+  simp only []
+  rw [if_neg (by decide)]
+  obtain ⟨p0, p1, p2⟩ := ok.productVersion
+  obtain ⟨c0, c1, c2⟩ := ok.componentVersion
+  rw [leDec_single, leDec_single, u8_toNat _ ok.major, u8_toNat _ ok.minor,
+    leDec_leEnc 2 _ (by simpa using ok.flags), leDec_leEnc 4 _ (by simpa using ok.imageBlocks),
+    leDec_leEnc 4 _ (by simpa using ok.firstBootTagBlock), leDec_leEnc 4 _ (by simpa using ok.firstBootSectionId),
+    leDec_leEnc 4 _ (by simpa using ok.offsetToCert), leDec_leEnc 2 _ (by simpa using ok.headerBlocks),
+    leDec_leEnc 2 _ (by simpa using ok.keyBlobBlock), leDec_leEnc 2 _ (by simpa using ok.keyBlobBlockCount),
+    leDec_leEnc 2 _ (by simpa using ok.maxSectionMacCount), leDec_leEnc 8 _ (by simpa using ok.timestamp),
+    leDec_leEnc 4 _ (by simpa using ok.buildNumber),
+    beDec_leEnc_swap16 _ p0, beDec_leEnc_swap16 _ p1, beDec_leEnc_swap16 _ p2,
+    beDec_leEnc_swap16 _ c0, beDec_leEnc_swap16 _ c1, beDec_leEnc_swap16 _ c2]
+  rfl
+
+/-- seven consecutive parts of a file, the first three of fixed size -/
+theorem parts7 (a b d e f g k : Bytes) (la : a.length = 96) (lb : b.length = 32) (ld : d.length = 80) :
+    (a ++ b ++ d ++ e ++ f ++ g ++ k).length = 208 + e.length + f.length + g.length + k.length ∧
+    (a ++ b ++ d ++ e ++ f ++ g ++ k).take 96 = a ∧
+    Rom.slice (a ++ b ++ d ++ e ++ f ++ g ++ k) 96 32 = b ∧
+    Rom.slice (a ++ b ++ d ++ e ++ f ++ g ++ k) 128 80 = d ∧
+    Rom.slice (a ++ b ++ d ++ e ++ f ++ g ++ k) 208 e.length = e ∧
+    Rom.slice (a ++ b ++ d ++ e ++ f ++ g ++ k) (208 + e.length) f.length = f ∧
+    Rom.slice (a ++ b ++ d ++ e ++ f ++ g ++ k) (208 + e.length + f.length) g.length = g ∧
+    (a ++ b ++ d ++ e ++ f ++ g ++ k).drop (208 + e.length + f.length + g.length) = k ∧
+    (a ++ b ++ d ++ e ++ f ++ g ++ k).take (208 + e.length + f.length) = a ++ b ++ d ++ e ++ f ∧
+    (a ++ b ++ d ++ e ++ f ++ g ++ k).drop 208 = e ++ (f ++ g ++ k) := by
+  refine ⟨?_, ?_, ?_, ?_, ?_, ?_, ?_, ?_, ?_, ?_⟩
+  · simp only [List.length_append, la, lb, ld]
+  · rw [show a ++ b ++ d ++ e ++ f ++ g ++ k = a ++ (b ++ d ++ e ++ f ++ g ++ k) by simp only [List.append_assoc]]
+    exact List.take_left' la
+  · rw [show a ++ b ++ d ++ e ++ f ++ g ++ k = a ++ b ++ (d ++ e ++ f ++ g ++ k) by simp only [List.append_assoc]]
+    exact slice_mid _ _ _ _ _ la.symm lb.symm
+  · rw [show a ++ b ++ d ++ e ++ f ++ g ++ k = (a ++ b) ++ d ++ (e ++ f ++ g ++ k) by simp only [List.append_assoc]]
+    exact slice_mid _ _ _ _ _ (by simp only [List.length_append, la, lb] <;> omega) ld.symm
+  · rw [show a ++ b ++ d ++ e ++ f ++ g ++ k = (a ++ b ++ d) ++ e ++ (f ++ g ++ k) by simp only [List.append_assoc]]
+    exact slice_mid _ _ _ _ _ (by simp only [List.length_append, la, lb, ld] <;> omega) rfl
+  · rw [show a ++ b ++ d ++ e ++ f ++ g ++ k = (a ++ b ++ d ++ e) ++ f ++ (g ++ k) by simp only [List.append_assoc]]
+    exact slice_mid _ _ _ _ _ (by simp only [List.length_append, la, lb, ld] <;> omega) rfl
+  · rw [show a ++ b ++ d ++ e ++ f ++ g ++ k = (a ++ b ++ d ++ e ++ f) ++ g ++ k by simp only [List.append_assoc]]
+    exact slice_mid _ _ _ _ _ (by simp only [List.length_append, la, lb, ld] <;> omega) rfl
+  · exact List.drop_left' (by simp only [List.length_append, la, lb, ld] <;> omega)
+  · rw [show a ++ b ++ d ++ e ++ f ++ g ++ k = (a ++ b ++ d ++ e ++ f) ++ (g ++ k) by simp only [List.append_assoc]]
+    exact List.take_left' (by simp only [List.length_append, la, lb, ld] <;> omega)
+  · rw [show a ++ b ++ d ++ e ++ f ++ g ++ k = (a ++ b ++ d) ++ (e ++ (f ++ g ++ k)) by simp only [List.append_assoc]]
+    exact List.drop_left' (by simp only [List.length_append, la, lb, ld] <;> omega)
+
+
+theorem shaPresent_iff (cfg : Cfg) : cfg.shaPresent = true ↔ cfg.flags / 0x8000 % 2 = 1 := by
+  unfold Cfg.shaPresent
+  rw [decide_eq_true_iff]
+  exact flags_sha_iff cfg.flags
+
+theorem headerKeysLen_eq : headerKeysLen = 208 := by decide
+
+theorem bsOffset21_eq (cfg : Cfg) :
+    cfg.bsOffset21 = 208 + cfg.certBlock.length + (if cfg.flags / 0x8000 % 2 = 1 then 32 else 0) + cfg.signature.length := by
+  unfold Cfg.bsOffset21
+  rw [headerKeysLen_eq]
+  by_cases hs : cfg.flags / 0x8000 % 2 = 1
+  · rw [if_pos ((shaPresent_iff cfg).2 hs), if_pos hs]; simp only [Sb2Consts.v21Sha256Size]; omega
+  · rw [if_neg (by rw [shaPresent_iff]; exact hs), if_neg hs]; omega
+
+theorem certBlockOk_mod (cb : Bytes) (ok : Spec.certBlockOk cb) : cb.length % 16 = 0 := by
+  unfold Spec.certBlockOk Rom.certBlockLen at ok
+  split at ok
+  · split at ok
+    · cases ok
+    · split at ok
+      · cases ok
+      · injection ok with ok
+        omega
+  · cases ok
+
+theorem certBlockLen_embed (pre cb rest : Bytes) (ok : Spec.certBlockOk cb) (off : Nat) (ho : off = pre.length) :
+    Rom.certBlockLen (pre ++ cb ++ rest) off = .ok cb.length := by
+  subst ho
+  unfold Spec.certBlockOk at ok
+  unfold Rom.certBlockLen at ok ⊢
+  rw [List.append_assoc, List.drop_left]
+  rw [List.drop_zero] at ok
+  cases hs : Rom.splitW Spec.certHeaderWidths cb with
+  | none => rw [hs] at ok; cases ok
+  | some r =>
+    rw [splitW_append _ _ _ _ hs]
+    rw [hs] at ok
+    exact ok
+
+theorem keyBlob_eq (h : CryptoLaws c) (kek dek mac : Bytes) (hd : dek.length = 32) (hm : mac.length = 32) :
+    (kwWrap c kek (dek ++ mac)).length = 72 ∧ (keyBlob c kek dek mac).length = 80 ∧
+    keyBlob c kek dek mac = kwWrap c kek (dek ++ mac) ++ zeros 8 := by
+  have hl : (kwWrap c kek (dek ++ mac)).length = 72 := by
+    rw [Crypto.kwWrap_length h _ _ (by simp [hd, hm])]; simp [hd, hm]
+  refine ⟨hl, ?_, ?_⟩
+  · simp [keyBlob, hl, Sb2Consts.v21KeyBlobSize]
+  · simp [keyBlob, hl, Sb2Consts.v21KeyBlobSize]
+
+
+theorem readKeys_ok (h : CryptoLaws c) (kek dek mac file : Bytes) (hd : Rom.Hdr)
+    (hb : hd.keyBlobBlock = 8) (hc : hd.keyBlobBlockCount = 5) (hl : 208 ≤ file.length)
+    (hs : Rom.slice file 128 72 = kwWrap c kek (dek ++ mac)) (ld : dek.length = 32) (lm : mac.length = 32) :
+    Rom.readKeys c kek file hd = .ok (dek, mac) := by
+  unfold Rom.readKeys
+  rw [hb, hc, if_neg (by simp only [Spec.wrappedKeysSize]; omega)]
+  simp only [Spec.wrappedKeysSize, Nat.reduceMul]
+  rw [hs, Crypto.kw_inv h _ _ (by simp [ld, lm]) (by simp [ld, lm])]
+  simp only []
+  rw [if_neg (by simp [ld, lm]), List.take_left' ld, List.drop_left' ld]
+
+theorem readKeys_wrong (kek kek' dek mac file : Bytes) (hd : Rom.Hdr)
+    (hb : hd.keyBlobBlock = 8) (hc : hd.keyBlobBlockCount = 5) (hl : 208 ≤ file.length)
+    (hs : Rom.slice file 128 72 = kwWrap c kek (dek ++ mac)) (hk : kek' ≠ kek) :
+    Rom.readKeys c kek' file hd = .error .badKeyBlob ∨ Break c := by
+  by_cases hsome : (kwUnwrap c kek' (kwWrap c kek (dek ++ mac))).isSome
+  · exact Or.inr (Break.wrapForgery kek kek' _ (Ne.symm hk) hsome)
+  · left
+    unfold Rom.readKeys
+    rw [hb, hc, if_neg (by simp only [Spec.wrappedKeysSize]; omega)]
+    simp only [Spec.wrappedKeysSize, Nat.reduceMul]
+    rw [hs]
+    cases hu : kwUnwrap c kek' (kwWrap c kek (dek ++ mac)) with
+    | none => rfl
+    | some k => rw [hu] at hsome; simp at hsome
+
+
+
 /-! ## V2.1 -/
+
+/-- the header the ROM is expected to read from a V2.1 file (spec-side arithmetic) -/
+def hd21 (cfg : Cfg) : Rom.Hdr :=
+  { nonce := cfg.nonce, major := 2, minor := 1, flags := cfg.flags,
+    imageBlocks := Spec.fileLen21 cfg / 16,
+    firstBootTagBlock :=
+      (208 + cfg.certBlock.length + (if cfg.flags / 0x8000 % 2 = 1 then 32 else 0) + cfg.signature.length) / 16,
+    firstBootSectionId := (cfg.sections.head?.map (·.uid)).getD 0,
+    offsetToCert := 208, headerBlocks := 6, keyBlobBlock := 8, keyBlobBlockCount := 5,
+    maxSectionMacCount := (cfg.sections.map Spec.macCount).sum,
+    timestamp := cfg.timestamp, productVersion := cfg.productVersion, componentVersion := cfg.componentVersion,
+    buildNumber := cfg.buildNumber }
+
+theorem head_uid_lt (ss : List Section) (wf : ∀ s ∈ ss, Spec.WFsection s) :
+    (ss.head?.map (·.uid)).getD 0 < 2 ^ 32 := by
+  cases ss with
+  | nil => simp
+  | cons s rest => simpa using (wf s (by simp)).1
+
+theorem fileLen21_eq (cfg : Cfg) (wsec : ∀ s ∈ cfg.sections, Spec.WFsection s) :
+    cfg.bsOffset21 + (cfg.sections.map Section.rawSize).sum = Spec.fileLen21 cfg := by
+  rw [bsOffset21_eq, (rawSize_sum_sections cfg.sections wsec).1]
+  unfold Spec.fileLen21
+  omega
+
+theorem header21_facts (cfg : Cfg) (wf : Spec.WF21 cfg) : HdrOk cfg.header21 ∧ cfg.header21.toRom = hd21 cfg := by
+  obtain ⟨wdek, wmac, wnonce, wpad, wts, wpv, wcv, wbn, wfl, wsg, wcert, wsig, wne, wsec, wlen, wmc⟩ := wf
+  have e1 := fileLen21_eq cfg wsec
+  have e2 := bsOffset21_eq cfg
+  have e3 := (rawSize_sum_sections cfg.sections wsec).2
+  have e4 : cfg.bsOffset21 / 16 ≤ Spec.fileLen21 cfg / 16 := by
+    apply Nat.div_le_div_right; omega
+  constructor
+  · constructor <;> simp only [Cfg.header21, e1, e3, headerKeysLen_eq, Sb2Consts.imageHeaderFmtSize,
+      Sb2Consts.hdrKeyBlobBlock, Sb2Consts.hdrKeyBlobBlockCount] <;> first | assumption | omega | skip
+    · exact head_uid_lt _ wsec
+  · simp only [ImageHdr.toRom, Cfg.header21, hd21, e1, e3, ← e2, headerKeysLen_eq, Sb2Consts.imageHeaderFmtSize,
+      Sb2Consts.hdrKeyBlobBlock, Sb2Consts.hdrKeyBlobBlockCount]
+
+
+/-- size of the optional SHA-256 field of a V2.1 file -/
+def shaLen21 (cfg : Cfg) : Nat := if cfg.flags / 0x8000 % 2 = 1 then 32 else 0
+
+/-- layout facts about a V2.1 file -/
+structure V21Facts (c : CryptoOps) (cfg : Cfg) : Prop where
+  len : (buildV21 c cfg).length = 208 + cfg.certBlock.length + shaLen21 cfg + cfg.signature.length + Spec.sectionsLen cfg.sections
+  bsLen : (cfg.bsData21 c).length = Spec.sectionsLen cfg.sections
+  bsMod : Spec.sectionsLen cfg.sections % 16 = 0
+  certMod : cfg.certBlock.length % 16 = 0
+  take96 : (buildV21 c cfg).take 96 = encodeImageHdr cfg.header21
+  hmacAt : Rom.slice (buildV21 c cfg) 96 32 = hmac256 c cfg.mac
+    (((cfg.bsData21 c).drop 16).take ((cfg.sections.head?.map Section.effHmacCount).getD 0 * 32 + 32))
+  kbAt : Rom.slice (buildV21 c cfg) 128 80 = keyBlob c cfg.kek cfg.dek cfg.mac
+  kwAt : Rom.slice (buildV21 c cfg) 128 72 = kwWrap c cfg.kek (cfg.dek ++ cfg.mac)
+  certAt : Rom.slice (buildV21 c cfg) 208 cfg.certBlock.length = cfg.certBlock
+  shaAt : Rom.slice (buildV21 c cfg) (208 + cfg.certBlock.length) (shaLen21 cfg) =
+    (if cfg.shaPresent then c.hash .sha256 (cfg.bsData21 c) else [])
+  sigAt : Rom.slice (buildV21 c cfg) (208 + cfg.certBlock.length + shaLen21 cfg) cfg.signature.length = cfg.signature
+  bsAt : (buildV21 c cfg).drop (208 + cfg.certBlock.length + shaLen21 cfg + cfg.signature.length) = cfg.bsData21 c
+  signedAt : (buildV21 c cfg).take (208 + cfg.certBlock.length + shaLen21 cfg) = cfg.signed21 c
+  certLen : Rom.certBlockLen (buildV21 c cfg) 208 = .ok cfg.certBlock.length
+  readHdr : Rom.readImageHdr (buildV21 c cfg) = .ok (hd21 cfg)
+
+theorem v21_facts (h : CryptoLaws c) (cfg : Cfg) (wf : Spec.WF21 cfg) : V21Facts c cfg := by
+  have ⟨hok, hrom⟩ := header21_facts cfg wf
+  obtain ⟨wdek, wmac, wnonce, wpad, wts, wpv, wcv, wbn, wfl, wsg, wcert, wsig, wne, wsec, wlen, wmc⟩ := wf
+  have ⟨lbs, lbs16⟩ := buildSections_length h cfg.dek cfg.mac cfg.nonce cfg.sections wsec
+    (nonceCtr cfg.nonce + cfg.bsOffset21 / 16)
+  have ⟨lkw, lkb, ekb⟩ := keyBlob_eq h cfg.kek cfg.dek cfg.mac wdek wmac
+  have lH : (encodeImageHdr cfg.header21).length = 96 := encodeImageHdr_length _ wnonce wpad
+  have lsha : (if cfg.shaPresent then c.hash .sha256 (cfg.bsData21 c) else []).length = shaLen21 cfg := by
+    unfold shaLen21
+    by_cases hs : cfg.flags / 0x8000 % 2 = 1
+    · rw [if_pos ((shaPresent_iff cfg).2 hs), if_pos hs, h.hash_len]; rfl
+    · rw [if_neg (by rw [shaPresent_iff]; exact hs), if_neg hs]; rfl
+  have hfile : buildV21 c cfg = encodeImageHdr cfg.header21 ++
+      hmac256 c cfg.mac (((cfg.bsData21 c).drop 16).take ((cfg.sections.head?.map Section.effHmacCount).getD 0 * 32 + 32)) ++
+      keyBlob c cfg.kek cfg.dek cfg.mac ++ cfg.certBlock ++
+      (if cfg.shaPresent then c.hash .sha256 (cfg.bsData21 c) else []) ++ cfg.signature ++ cfg.bsData21 c := rfl
+  obtain ⟨p1, p2, p3, p4, p5, p6, p7, p8, p9, p10⟩ := parts7 _ _ _ cfg.certBlock
+    (if cfg.shaPresent then c.hash .sha256 (cfg.bsData21 c) else []) cfg.signature (cfg.bsData21 c)
+    lH (hmac256_length h _ _) lkb
+  rw [← hfile] at p1 p2 p3 p4 p5 p6 p7 p8 p9 p10
+  rw [lsha] at p1 p6 p7 p8 p9
+  have hbs : (cfg.bsData21 c).length = Spec.sectionsLen cfg.sections := lbs
+  refine ⟨by rw [p1, hbs], hbs, lbs16, certBlockOk_mod _ wcert, p2, p3, p4, ?_, p5, p6, p7, p8, p9, ?_, ?_⟩
+  · have : Rom.slice (buildV21 c cfg) 128 72 = (Rom.slice (buildV21 c cfg) 128 80).take 72 := by
+      simp [Rom.slice, List.take_take]
+    rw [this, p4, ekb, List.take_left' lkw]
+  · rw [hfile]
+    simp only [List.append_assoc]
+    rw [← List.append_assoc, ← List.append_assoc, ← List.append_assoc]
+    exact certBlockLen_embed _ _ _ wcert 208 (by simp only [List.length_append, lH, hmac256_length h, lkb])
+  · rw [hfile]
+    simp only [List.append_assoc]
+    rw [readImageHdr_encode _ hok, hrom]
+
+
+theorem shaLen21_cases (cfg : Cfg) : (cfg.flags / 0x8000 % 2 = 1 ∧ shaLen21 cfg = 32) ∨ (¬ cfg.flags / 0x8000 % 2 = 1 ∧ shaLen21 cfg = 0) := by
+  unfold shaLen21
+  by_cases hs : cfg.flags / 0x8000 % 2 = 1
+  · left; exact ⟨hs, if_pos hs⟩
+  · right; exact ⟨hs, if_neg hs⟩
+
+theorem fileLen21_sha (cfg : Cfg) : Spec.fileLen21 cfg =
+    208 + cfg.certBlock.length + shaLen21 cfg + cfg.signature.length + Spec.sectionsLen cfg.sections := by
+  unfold Spec.fileLen21 shaLen21; rfl
+
+theorem sections_length_le (ss : List Section) (wf : ∀ s ∈ ss, Spec.WFsection s) :
+    ss.length * 96 ≤ Spec.sectionsLen ss := by
+  induction ss with
+  | nil => simp
+  | cons s rest ih =>
+    have := ih (fun x hx => wf x (by simp [hx]))
+    have ⟨_, _, r3⟩ := rawSize_eq_sectionLen s (wf s (by simp))
+    unfold Spec.sectionsLen at *
+    simp only [List.length_cons, List.map_cons, List.sum_cons]
+    omega
+
+-- INTERFACE
+theorem romV21_buildV21 (h : CryptoLaws c) (cfg : Cfg) (wf : Spec.WF21 cfg) :
+    Rom.romV21 c cfg.kek (buildV21 c cfg) = .ok (Spec.expected21 cfg) := by
+  obtain ⟨f1, f2, f3, f4, f5, f6, f7, f8, f9, f10, f11, f12, f13, f14, f15⟩ := v21_facts h cfg wf
+  obtain ⟨wdek, wmac, wnonce, wpad, wts, wpv, wcv, wbn, wfl, wsg, wcert, wsig, wne, wsec, wlen, wmc⟩ := wf
+  have hstop : Spec.fileLen21 cfg / 16 * 16 = (buildV21 c cfg).length := by
+    rw [f1, fileLen21_sha]; have := shaLen21_cases cfg; omega
+  have hstart : (208 + cfg.certBlock.length + shaLen21 cfg + cfg.signature.length) / 16 * 16
+      = 208 + cfg.certBlock.length + shaLen21 cfg + cfg.signature.length := by
+    have := shaLen21_cases cfg; omega
+  generalize hfile : buildV21 c cfg = file at *
+  generalize hhd : hd21 cfg = hd at f15
+  have ⟨g1, g2, g3, g4, g5, g6, g7, g8, g9, g10, g11⟩ : hd.major = 2 ∧ hd.minor = 1 ∧ hd.flags = cfg.flags ∧
+      hd.headerBlocks = 6 ∧ hd.offsetToCert = 208 ∧ hd.keyBlobBlock = 8 ∧ hd.keyBlobBlockCount = 5 ∧
+      hd.firstBootTagBlock = (208 + cfg.certBlock.length + shaLen21 cfg + cfg.signature.length) / 16 ∧
+      hd.imageBlocks = Spec.fileLen21 cfg / 16 ∧ hd.nonce = cfg.nonce ∧
+      hd.firstBootSectionId = (cfg.sections.head?.map (·.uid)).getD 0 := by
+    subst hhd; exact ⟨rfl, rfl, rfl, rfl, rfl, rfl, rfl, rfl, rfl, rfl, rfl⟩
+  unfold Rom.romV21
+  rw [f15]
+  simp only [g1, g2, g3, g4, g5, g6, g7, g8, g9, g10, g11, Spec.flagSigned, Spec.imageHeaderSize, Spec.flagSha,
+    Spec.shaSize, Spec.macSize, flags_sha_iff, ← shaLen21.eq_1, hstart, hstop]
+  rw [if_neg (by omega), if_neg ((flags_signed_iff cfg.flags).2 wsg), if_neg (by omega)]
+  rw [readKeys_ok h cfg.kek cfg.dek cfg.mac file hd g6 g7 (by omega) f8 wdek wmac]
+  simp only []
+  rw [f14]
+  simp only []
+  rw [if_neg (by omega)]
+  -- the boot sections
+  have hbsO : cfg.bsOffset21 = 208 + cfg.certBlock.length + shaLen21 cfg + cfg.signature.length := bsOffset21_eq cfg
+  generalize hst : 208 + cfg.certBlock.length + shaLen21 cfg + cfg.signature.length = start at *
+  have hbs : Rom.slice file start (file.length - start) = cfg.bsData21 c := by
+    unfold Rom.slice; rw [f12]; exact List.take_of_length_le (by omega)
+  have hsha : (decide (cfg.flags / 32768 % 2 = 1) &&
+      Rom.slice file (208 + cfg.certBlock.length + shaLen21 cfg - 32) 32 != c.hash .sha256 (cfg.bsData21 c)) = false := by
+    rcases shaLen21_cases cfg with ⟨hs, hl⟩ | ⟨hs, hl⟩
+    · rw [hl] at f10 ⊢
+      rw [if_pos ((shaPresent_iff cfg).2 hs)] at f10
+      rw [show 208 + cfg.certBlock.length + 32 - 32 = 208 + cfg.certBlock.length by omega, f10]
+      simp
+    · simp [hs]
+  rw [hbs, hsha]
+  simp only [Bool.false_eq_true, if_false]
+  have hpre : file = file.take start ++ cfg.bsData21 c ++ [] := by
+    rw [List.append_nil, ← f12, List.take_append_drop]
+  have lpre : (file.take start).length = start := by rw [List.length_take]; omega
+  have hrs := readSections_buildSections h cfg.dek cfg.mac cfg.nonce [] cfg.sections wsec (file.take start)
+    (by rw [lpre]; omega) (file.length / 16 + 1) (by have := sections_length_le cfg.sections wsec; omega)
+  have hbsd : cfg.bsData21 c = buildSections c cfg.dek cfg.mac cfg.nonce (nonceCtr cfg.nonce + start / 16) cfg.sections := by
+    unfold Cfg.bsData21; rw [hbsO]
+  rw [lpre, ← hbsd, ← hpre, show start + Spec.sectionsLen cfg.sections = file.length by omega] at hrs
+  rw [hrs]
+  obtain ⟨s, rest, hss⟩ : ∃ s rest, cfg.sections = s :: rest := by
+    cases hc : cfg.sections with
+    | nil => exact absurd hc wne
+    | cons s rest => exact ⟨s, rest, rfl⟩
+  have ⟨em, _, _⟩ := effHmacCount_eq s (wsec s (by rw [hss]; simp))
+  have hmac0 : Rom.slice file 96 32 =
+      hmac c .sha256 cfg.mac (Rom.slice file (start + 16) (32 * ((Spec.expectedSection s).hmacCount + 1))) := by
+    rw [f6, hss]
+    simp only [List.head?_cons, Option.map_some, Option.getD_some, hmac256, Spec.expectedSection, Rom.slice]
+    rw [← f12, List.drop_drop, em, show 32 * (Spec.macCount s + 1) = Spec.macCount s * 32 + 32 by omega]
+  have hsig : Rom.slice file (208 + cfg.certBlock.length + shaLen21 cfg) (start - (208 + cfg.certBlock.length + shaLen21 cfg))
+      = cfg.signature := by
+    rw [show start - (208 + cfg.certBlock.length + shaLen21 cfg) = cfg.signature.length by omega, f11]
+  have huid : (Spec.expectedSection s).uid = ((cfg.sections.head?).map (·.uid)).getD 0 := by
+    rw [hss]; rfl
+  simp only [hss, List.map_cons]
+  rw [if_neg (by rw [hmac0]; simp), if_neg (by rw [huid, hss]; simp), hsig, f9]
+  subst hst hhd
+  simp only [Rom.mkContent, Spec.expected21, shaLen21, hd21, hss, List.map_cons]
+
 
 -- INTERFACE
 theorem buildV21_length (h : CryptoLaws c) (cfg : Cfg) (wf : Spec.WF21 cfg) :
     (buildV21 c cfg).length = Spec.fileLen21 cfg := by
-  sorry
+  rw [(v21_facts h cfg wf).len, fileLen21_sha]
 
--- INTERFACE: the ROM model accepts what the builder model produces and reports exactly the given content
-theorem romV21_buildV21 (h : CryptoLaws c) (cfg : Cfg) (wf : Spec.WF21 cfg) :
-    Rom.romV21 c cfg.kek (buildV21 c cfg) = .ok (Spec.expected21 cfg) := by
-  sorry
+theorem start21_aligned (cfg : Cfg) (wf : Spec.WF21 cfg) :
+    (208 + cfg.certBlock.length + shaLen21 cfg + cfg.signature.length) / 16 * 16
+      = 208 + cfg.certBlock.length + shaLen21 cfg + cfg.signature.length := by
+  obtain ⟨wdek, wmac, wnonce, wpad, wts, wpv, wcv, wbn, wfl, wsg, wcert, wsig, wne, wsec, wlen, wmc⟩ := wf
+  have := shaLen21_cases cfg
+  have := certBlockOk_mod _ wcert
+  omega
 
--- INTERFACE: the header fields locate the parts of the file
+-- INTERFACE
 theorem header_describes_file_v21 (h : CryptoLaws c) (cfg : Cfg) (wf : Spec.WF21 cfg) :
     (buildV21 c cfg).length = (Spec.expected21 cfg).imageBlocks * 16 ∧
     (buildV21 c cfg).drop ((Spec.expected21 cfg).firstBootTagBlock * 16) = cfg.bsData21 c ∧
@@ -34,19 +459,42 @@ theorem header_describes_file_v21 (h : CryptoLaws c) (cfg : Cfg) (wf : Spec.WF21
     Rom.slice (buildV21 c cfg) ((Spec.expected21 cfg).keyBlobBlock * 16) ((Spec.expected21 cfg).keyBlobBlockCount * 16)
       = keyBlob c cfg.kek cfg.dek cfg.mac ∧
     (buildV21 c cfg).take ((Spec.expected21 cfg).headerBlocks * 16) = encodeImageHdr cfg.header21 := by
-  sorry
+  obtain ⟨f1, f2, f3, f4, f5, f6, f7, f8, f9, f10, f11, f12, f13, f14, f15⟩ := v21_facts h cfg wf
+  have hstart := start21_aligned cfg wf
+  have e : (Spec.expected21 cfg).firstBootTagBlock * 16 =
+      208 + cfg.certBlock.length + shaLen21 cfg + cfg.signature.length := hstart
+  refine ⟨?_, ?_, f2, f9, f7, f5⟩
+  · show _ = Spec.fileLen21 cfg / 16 * 16
+    rw [f1, fileLen21_sha]
+    omega
+  · rw [e, f12]
 
--- INTERFACE: what is signed, and where the signature sits
+-- INTERFACE
 theorem signed_range_v21 (h : CryptoLaws c) (cfg : Cfg) (wf : Spec.WF21 cfg) :
     (buildV21 c cfg).take (Spec.expected21 cfg).signedLen = cfg.signed21 c ∧
     Rom.slice (buildV21 c cfg) (Spec.expected21 cfg).signedLen cfg.signature.length = cfg.signature ∧
     (Spec.expected21 cfg).signedLen + cfg.signature.length = (Spec.expected21 cfg).firstBootTagBlock * 16 := by
-  sorry
+  obtain ⟨f1, f2, f3, f4, f5, f6, f7, f8, f9, f10, f11, f12, f13, f14, f15⟩ := v21_facts h cfg wf
+  have hstart := start21_aligned cfg wf
+  exact ⟨f13, f11, hstart.symm⟩
 
--- INTERFACE: a different KEK is refused at the key blob — unless RFC 3394 integrity is broken
+-- INTERFACE
 theorem wrong_kek_v21 (h : CryptoLaws c) (cfg : Cfg) (wf : Spec.WF21 cfg) (kek' : Bytes) (hk : kek' ≠ cfg.kek) :
     Rom.romV21 c kek' (buildV21 c cfg) = .error .badKeyBlob ∨ Break c := by
-  sorry
+  obtain ⟨f1, f2, f3, f4, f5, f6, f7, f8, f9, f10, f11, f12, f13, f14, f15⟩ := v21_facts h cfg wf
+  obtain ⟨wdek, wmac, wnonce, wpad, wts, wpv, wcv, wbn, wfl, wsg, wcert, wsig, wne, wsec, wlen, wmc⟩ := wf
+  generalize hfile : buildV21 c cfg = file at *
+  generalize hhd : hd21 cfg = hd at f15
+  have ⟨g1, g2, g3, g4, g6, g7⟩ : hd.major = 2 ∧ hd.minor = 1 ∧ hd.flags = cfg.flags ∧
+      hd.headerBlocks = 6 ∧ hd.keyBlobBlock = 8 ∧ hd.keyBlobBlockCount = 5 := by
+    subst hhd; exact ⟨rfl, rfl, rfl, rfl, rfl, rfl⟩
+  rcases readKeys_wrong cfg.kek kek' cfg.dek cfg.mac file hd g6 g7 (by omega) f8 hk with hr | hb
+  · left
+    unfold Rom.romV21
+    rw [f15]
+    simp only [g1, g2, g3, g4, Spec.flagSigned, Spec.imageHeaderSize]
+    rw [if_neg (by omega), if_neg ((flags_signed_iff cfg.flags).2 wsg), if_neg (by omega), hr]
+  · exact Or.inr hb
 
 /-! ## V2.0 -/
 
